@@ -53,8 +53,19 @@ def nonsnp_lines():
         out.append((BASES[len(out) % 4], x))
     out += [('N', 'A'), ('*', 'A'), ('.', 'A'), ('a,c', 'g')]
     return out
+# ---- INFO column: the keys under which the reader may find the ancestral allele (exact INFO keys, the text before the first '=') ...
+AA_KEYS = ('AA', 'AA_ensembl', 'AA_chimp')
+# ... and keys that are NOT the ancestral allele although they share a prefix / are an extension / a case variant of one of them, or
+# contain it: flags without '=', cohort annotations (ESP6500: AA_AC, AA_AF = African-American allele count / frequency), ...
+DECOY_KEYS = ['AA', 'AA_ensembl', 'AA_chimp',                                  # flags (no '=')
+              'AAX', 'AAA', 'AAs', 'AA.', 'AA-', 'AA:', 'AA_', 'AA_AC', 'AA_AF', 'AA_GTC', 'AA_AGE', 'AA_ens', 'AA_ensemb', 'AA_ensemblX',
+              'AA_ensembl_v2', 'AA_ensembl.1', 'AA_chim', 'AA_chimpanzee', 'AA_chimp2', 'AA_CHIMP', 'AA_Ensembl', 'AA_gorilla', 'AA_macaque',
+              'aa', 'Aa', 'aA', 'aa_ensembl', 'XAA', 'X_AA', 'BAA', 'EAA', 'CAA', 'A', 'A_A', 'AAF', 'AA1', '1AA', '.AA', 'AA_ensemblAA', 'AAAA']
+UNRELATED = ['DP=14', 'AC=3', 'AN=12', 'NS=3', 'AF=0.5', 'DB', 'H2', 'CSQ=A|missense|p.x', 'MQ=60', 'VT=SNP', 'SOMATIC', 'END=77', '.']
+FILTERS_FAIL = ['q10', 'LowQual', 'q10;s50', 'pass', 'FAIL', 'Pass', 'PASS;q10', 'q10;PASS', 'PAS', 'PASSED', 'PASS2', 'NOPASS', '..', '0', 'P', './.', ';']
+FORMATS = ['GT:DP', 'GT:AD:DP', 'GT:DP:AD', 'DP:GT', 'AD:DP:GT', 'GQ:GT', 'GT:GQ:PL', 'DP:GQ:GT:AD', 'PL:AD:GT']
 CHROMS = ['chr1', 'chr_2', 'scaf.3', 'ctg_4.1_b', '2L', 'X_random.v2', 'NC_000001.11', 'a_b_c', 'un.known', '7']
-POPS = ['YRI', 'CEU', 'pop_3', 'East.1', 'w', 'P2']
+POPS = ['YRI', 'CEU', 'pop_3', 'East.1', 'w', 'P2', 'POP2', 'Sample.b', 'population']
 
 # ------------------------------------------------------------------------------------------------ codes
 def allele_code(s):
@@ -80,6 +91,47 @@ class Codes:
         return self.info.setdefault(s, len(self.info) + 1)
 
 # ------------------------------------------------------------------------------------------------ generator
+def gen_info(rng, aakey, aa, ref, alt, full):
+    """the INFO column of one line as the list of its ';'-separated fields.  The ancestral allele (if the line has one) is the field
+    `<aakey>=<aa>`, aakey one of AA_KEYS; around it, in EVERY position relative to it: unrelated fields, and decoys = fields whose key
+    shares a prefix with / extends / is a case variant of / contains a recognised key, as flags or with values that would be a
+    perfectly good ancestral allele (REF, ALT, a third base, lower case, ensembl-style) or counts / frequencies."""
+    fields = []
+    for _ in range(int(rng.choice([0, 0, 1, 1, 2, 3]))):
+        fields.append(str(rng.choice(UNRELATED[:-1])))
+    real = None
+    if aa is not None:
+        real = '%s=%s' % (aakey, aa)
+        fields.insert(int(rng.integers(0, len(fields) + 1)), real)
+    ndec = int(rng.choice([0, 0, 1, 1, 2, 3])) if rng.random() < (0.6 if not full else 0.5) else 0
+    r, a = ref.upper()[:1], alt.upper()[:1]
+    third = [b for b in BASES if b not in (r, a)]
+    for _ in range(ndec):
+        key = str(rng.choice(DECOY_KEYS))
+        if key in AA_KEYS:
+            f = key                                                      # a recognised name without '=' is a flag, not a value
+        else:
+            u = rng.random()
+            val = (r or 'A') if u < 0.2 else (a or 'C') if u < 0.4 else third[0] if u < 0.55 else str(rng.choice(['12', '0.3', '0', '.', 'N', '-', 't', 'g|||', 'A|C', '1,2', '']))
+            f = ('%s=%s' % (key, val)) if rng.random() < 0.9 else key
+        fields.insert(int(rng.integers(0, len(fields) + 1)), f)
+    if not full and aa is not None and rng.random() < 0.05:
+        # a second recognised field: the first one in the column decides
+        fields.insert(int(rng.integers(0, len(fields) + 1)), '%s=%s' % (str(rng.choice(AA_KEYS)), str(rng.choice([r or 'A', a or 'C', third[0], '.', 'n']))))
+    if not fields and rng.random() < 0.5:
+        fields = ['.']                                                   # the VCF way of writing an empty INFO column
+    return fields
+
+def site_info(site):
+    """the INFO fields of a line (replay files written before round 6 hold pre / aakey / aa / post instead)"""
+    if 'info' in site: return list(site['info'])
+    txt = site.get('pre', '') + ('%s=%s' % (site['aakey'], site['aa']) if site['aa'] is not None else 'XX=1') + site.get('post', '')
+    return txt.split(';')
+
+def info_text(site):
+    f = site_info(site)
+    return ';'.join(f) if f else '.'
+
 def gen_dataset(rng, tier, kind='vcf', full=False, npop=None):
     """a synthetic genotype matrix with everything the text formats can express.
     full=True: no missing data, every line usable (for the direct statistics)."""
@@ -101,26 +153,26 @@ def gen_dataset(rng, tier, kind='vcf', full=False, npop=None):
     nchr = int(rng.integers(1, 4))
     chroms = [str(x) for x in rng.choice(CHROMS, size=nchr, replace=False)]
     span = int(rng.choice([30, 200, 5000]))
-    fmt = 'GT' if (full or rng.random() < 0.6) else str(rng.choice(['GT:DP', 'GT:AD:DP', 'GT:DP:AD', 'DP:GT']))
-    sep = '/' if rng.random() < 0.7 else '|'
+    fmt = 'GT' if rng.random() < 0.55 else str(rng.choice(FORMATS))       # GT first, in the middle, last; fields the reader does not know
+    sep = str(rng.choice(['/', '/', '|', 'mixed']))                        # unphased, phased, or both within one line
     miss_base = 0.0 if full else float(rng.choice([0.0, 0.05, 0.2, 0.5]))
     sites = []
     for s in range(L):
         chrom = chroms[int(rng.integers(nchr))]
         pos = int(rng.integers(1, span + 1))
         ref, alt = [str(x) for x in rng.choice(list(BASES), size=2, replace=False)]
-        flt = 'PASS'; aa = ref; aakey = 'AA'; pre = ''; post = ''
+        flt = 'PASS'; aa = ref; aakey = 'AA'
         if not full:
             u = rng.random()
             if u < 0.07: alt = str(rng.choice(SUBSTR + NONSUB + OTHER))
             elif u < 0.12: ref = str(rng.choice(SUBSTR + NONSUB + ['N']))
             elif u < 0.14: ref, alt = str(rng.choice(SUBSTR)), str(rng.choice(SUBSTR + NONSUB))
-            elif u < 0.13: alt = ref                                  # REF == ALT (degenerate but accepted)
+            elif u < 0.155: alt = ref                                 # REF == ALT (degenerate but accepted)
             if rng.random() < 0.15: ref = ref.lower()
             if rng.random() < 0.15: alt = alt.lower()
             u = rng.random()
-            if u < 0.10: flt = str(rng.choice(['q10', 'LowQual', 'q10;s50', 'pass', 'FAIL']))
-            elif u < 0.25: flt = '.'
+            if u < 0.12: flt = str(rng.choice(FILTERS_FAIL))
+            elif u < 0.27: flt = '.'
             u = rng.random()
             if u < 0.30: aa = ref.upper()
             elif u < 0.55: aa = alt.upper()
@@ -129,14 +181,15 @@ def gen_dataset(rng, tier, kind='vcf', full=False, npop=None):
             elif u < 0.80: aa = '.'
             elif u < 0.84: aa = 'N'
             elif u < 0.88: aa = '-'
-            elif u < 0.92: aa = str(rng.choice(['AT', 'acg', '']))
-            else: aa = alt.upper() + '|||'
+            elif u < 0.92: aa = str(rng.choice(['AT', 'acg', '', '?', 'A,C', '|A', 'NA']))
+            else: aa = alt.upper() + str(rng.choice(['|||', '|A|C|.', '|insertion', '|', '||' + ref.upper()]))
             if aa is not None and rng.random() < 0.2: aa = aa.lower()
-            aakey = 'AA' if rng.random() < 0.8 else str(rng.choice(['AA_ensembl', 'AA_chimp']))
-            pre = str(rng.choice(['', '', 'DP=14;', 'AC=3;AN=12;', 'NS=3;']))
-            post = str(rng.choice(['', '', ';AF=0.5', ';DB', ';AAX=T']))
+            aakey = 'AA' if rng.random() < 0.7 else str(rng.choice(['AA_ensembl', 'AA_chimp']))
         else:
             aa = ref if rng.random() < 0.5 else alt
+            if rng.random() < 0.3: aa = aa.lower() if rng.random() < 0.5 else aa + '|||'
+            if rng.random() < 0.3: aakey = str(rng.choice(['AA_ensembl', 'AA_chimp']))
+        info = gen_info(rng, aakey, aa, ref, alt, full)
         q = float(rng.choice([0.05, 0.2, 0.5, 0.8, 0.97, 0.0, 1.0])) if not full else float(rng.choice([0.1, 0.3, 0.5, 0.8, 0.0, 1.0]))
         miss = miss_base if rng.random() < 0.8 else float(rng.choice([0.0, 0.7, 1.0]))
         if full: miss = 0.0
@@ -147,7 +200,7 @@ def gen_dataset(rng, tier, kind='vcf', full=False, npop=None):
             else:
                 al = [int(rng.random() < q), int(rng.random() < q)]
             gts.append(al)
-        sites.append(dict(chrom=chrom, pos=pos, ref=ref, alt=alt, filt=flt, aa=aa, aakey=aakey, pre=pre, post=post, gts=gts,
+        sites.append(dict(chrom=chrom, pos=pos, ref=ref, alt=alt, filt=flt, aa=aa, aakey=aakey, info=info, gts=gts,
                           nodata=[False] * len(samples), dpstyle=None))
     if not full and kind in ('vcf', 'dp'):
         # deterministic block: non-SNP lines of every kind, fully called, PASS, AA = first base of REF, own positions:
@@ -158,7 +211,8 @@ def gen_dataset(rng, tier, kind='vcf', full=False, npop=None):
             r1 = r if rng.random() < 0.85 else r.lower()
             a1 = a if rng.random() < 0.85 else a.lower()
             sites.append(dict(chrom=chroms[k % nchr], pos=span + 1 + k, ref=r1, alt=a1, filt='PASS' if k % 3 else '.', aa=r.upper()[:1] if r[:1].upper() in BASES else 'A',
-                              aakey='AA', pre='', post='', gts=gts, nodata=[False] * len(samples), dpstyle=None, nonsnp=True))
+                              aakey='AA', gts=gts, nodata=[False] * len(samples), dpstyle=None, nonsnp=True))
+            sites[-1]['info'] = ['AA=%s' % sites[-1]['aa']]
     if not full and rng.random() < 0.35 and len(sites) > 2:              # a duplicated CHROM_POS (later line replaces)
         k = int(rng.integers(1, 3))
         for _ in range(k):
@@ -167,7 +221,7 @@ def gen_dataset(rng, tier, kind='vcf', full=False, npop=None):
     if rng.random() < 0.7:
         sites.sort(key=lambda s: (chroms.index(s['chrom']), s['pos']))
     ds = dict(kind=kind, pops=pops, ndip=nd, samples=samples, sites=sites, fmt=fmt, sep=sep, full=full,
-              popinfo_style=int(rng.integers(0, 4)), span=span,
+              popinfo_style=int(rng.integers(0, 6)), span=span,
               popinfo_order=[int(i) for i in rng.permutation(len(samples))] if rng.random() < 0.5 else None)
     ds['params'] = gen_params(rng, ds, tier)
     return ds
@@ -263,7 +317,9 @@ def gt_text(al, sep):
     return sep.join('.' if a == 9 else str(a) for a in al)
 
 def sample_text(ds, site, k):
-    gt = gt_text(site['gts'][k], ds['sep'])
+    sep = ds['sep']
+    if sep == 'mixed': sep = '/|'[(site['pos'] + 3 * k) % 2]
+    gt = gt_text(site['gts'][k], sep)
     fmt = ds['fmt'].split(':')
     nod = site['nodata'][k]
     style = site.get('dpstyle')
@@ -272,6 +328,9 @@ def sample_text(ds, site, k):
         if f == 'GT': out.append(gt)
         elif f == 'DP': out.append(('0' if style != 'dot' else '.') if nod else '12')
         elif f == 'AD': out.append('0,0' if nod else '7,5')
+        elif f == 'GQ': out.append('0' if k % 5 == 0 else '30')             # a 0 / '.' in a field that is not the depth means nothing
+        elif f == 'PL': out.append('.' if k % 4 == 0 else '0,10,100')
+        else: out.append('.')
     return ':'.join(out)
 
 def render_vcf(ds, d):
@@ -280,27 +339,54 @@ def render_vcf(ds, d):
         f.write('##fileformat=VCFv4.2\n##INFO=<ID=AA,Number=1,Type=String,Description="Ancestral Allele">\n')
         f.write('#CHROM\tPOS\tID\tREF\tALT\tQUAL\tFILTER\tINFO\tFORMAT\t' + '\t'.join(s[0] for s in ds['samples']) + '\n')
         for s in ds['sites']:
-            info = s['pre'] + ('%s=%s' % (s['aakey'], s['aa']) if s['aa'] is not None else 'XX=1') + s['post']
-            f.write('\t'.join([s['chrom'], str(s['pos']), '.', s['ref'], s['alt'], '50', s['filt'], info, ds['fmt']]
+            f.write('\t'.join([s['chrom'], str(s['pos']), '.', s['ref'], s['alt'], '50', s['filt'], info_text(s), ds['fmt']]
                               + [sample_text(ds, s, k) for k in range(len(ds['samples']))]) + '\n')
     st = ds['popinfo_style']
+    # styles: 0 plain, 1 comments + blank line, 2 header SAMPLE POP, 3 header `pop sample extra` (columns exchanged), 4 header in mixed
+    # case with the columns further right (`Id Sample Sex Pop`), comment and blank lines between the rows, 5 plain with spaces,
+    # more columns than needed and samples that are not in the VCF (of the same populations and of one that exists only here)
     with open(pop, 'w') as f:
         if st == 1: f.write('# a comment\n')
         if st == 2: f.write('SAMPLE\tPOP\n')
         if st == 3: f.write('pop sample extra\n')
-        order = ds.get('popinfo_order') or range(len(ds['samples']))     # the popinfo file lists the samples in an order of its own
-        for name, p in [ds['samples'][i] for i in order]:
-            if p is None: continue
+        if st == 4: f.write('#sample pop  <- a comment, not the header\nId Sample Sex Pop\n')
+        order = ds.get('popinfo_order') or range(len(ds['samples']))     # the popinfo file lists the samples in an order of their own
+        rows = [ds['samples'][i] for i in order if ds['samples'][i][1] is not None]
+        if st in (4, 5) and rows:
+            ghosts = [['ghost_%d' % i, rows[(5 * i) % len(rows)][1]] for i in range(2)] + [['Sample', 'populations'], ['pop1', 'Pop.x']]
+            rows = rows[:1] + ghosts[:2] + rows[1:] + ghosts[2:]
+        for i, (name, p) in enumerate(rows):
             if st == 3: f.write('%s %s x\n' % (p, name))
+            elif st == 4:
+                f.write('%d %s F\t%s\n' % (i, name, p))
+                if i % 3 == 1: f.write('# sample pop\n\n')
+            elif st == 5: f.write('%s   %s  pop sample\n' % (name, p) if i else '%s %s\n' % (name, p))
             else: f.write('%s\t%s\n' % (name, p))
         if st == 1: f.write('\n# trailing comment\n')
     return vcf, pop
 
 # ------------------------------------------------------------------------------------------------ abstraction (matrix -> wire)
+def info_key(field):
+    """the key of an INFO field: the text before the first '=' (None for a flag)"""
+    return field.split('=', 1)[0] if '=' in field else None
+
 def aa_value(site):
-    """what the parser extracts: first AA=/AA_ensembl=/AA_chimp= field, value upper-cased, cut at '|'"""
-    if site['aa'] is None: return None
-    return site['aa'].upper().split('|')[0]
+    """the statement's 'outgroup allele' of a VCF line, from the INFO column as written: the value of the first field whose KEY is
+    exactly AA (or one of the two outgroup-specific names AA_ensembl, AA_chimp), upper-cased, ensembl-style annotation after '|' cut
+    off; None if the line has no such field.  Any other key -- whatever it starts with -- is not the ancestral allele."""
+    for f in site_info(site):
+        if info_key(f) in AA_KEYS:
+            return f.split('=', 1)[1].upper().split('|')[0]
+    return None
+
+def decoy_layout(site):
+    """(decoys before the ancestral-allele field, decoys after it, line has such a field): a decoy is a field that is not the
+    ancestral allele but begins with 'AA' in any case / contains it"""
+    fs = site_info(site)
+    real = [i for i, f in enumerate(fs) if info_key(f) in AA_KEYS]
+    dec = [i for i, f in enumerate(fs) if info_key(f) not in AA_KEYS and 'aa' in f.split('=', 1)[0].lower()]
+    if not real: return (len(dec), 0, False)
+    return (sum(1 for i in dec if i < real[0]), sum(1 for i in dec if i > real[0]), True)
 
 def site_wire(ds, site, codes):
     pops = ds['pops']
@@ -1195,6 +1281,52 @@ def check_lines(chk, ctx, ds, dd, filt, codes):
         else:
             kbad(chk, 'kept', ds, None, out, None, dict(stage='lines'))
 
+def hexs(t):
+    """a text field on the wire (no separators of the protocol inside): hex of its bytes, '-' for the empty string"""
+    return t.encode('utf-8').hex() if t else '-'
+
+def check_aa_lines(chk, ctx, ds, dd, filt, stage):
+    """the reader's token-level decisions, line by line.  L3: the outgroup allele recorded for a SNP is the value of the INFO field whose
+    key is exactly AA / AA_ensembl / AA_chimp (first such field, upper-cased, cut at '|', '-' unless a single base) and of no other field,
+    wherever fields with similar keys stand.  K (`vcflines`): FILTER / REF / ALT / INFO texts through the model's generated reader
+    (`lineKept`, `lineAa`: accepted FILTER tokens, base list, recognised prefixes, extraction pipeline) against the dictionary."""
+    last = {}
+    for s in ds['sites']:
+        if is_snp_line(s, filt): last['%s_%d' % (s['chrom'], s['pos'])] = s
+    nbefore = nafter = 0
+    for k, s in last.items():
+        want = aa_value(s)
+        if want is None or len(want) != 1 or want not in BASES: want = '-'
+        b, a, has = decoy_layout(s)
+        nbefore += b > 0 and has; nafter += a > 0 and has
+        cls = 'base' if want != '-' else 'none' if not has else 'unusable'
+        chk.l3(('aa-line', stage, min(b, 2), min(a, 2), cls, [f.split('=')[0] for f in site_info(s) if info_key(f) in AA_KEYS][:1] == ['AA']))
+        if k not in dd: continue                                           # judged by check_lines
+        got = dd[k].get('outgroup_allele')
+        if got != want:
+            kind = ('similar-key-before' if b else 'similar-key-after' if a else 'plain') if has else ('similar-key-only' if b else 'no-field')
+            chk.fail('make_data_dict_vcf:ancestral-allele:%s' % kind,
+                     'VCF line %s REF=%s ALT=%s INFO=%r: outgroup_allele recorded as %r; the INFO column gives %r (the field whose key is exactly AA / AA_ensembl / AA_chimp; %s). Every such SNP is lost from (or mis-polarised in) polarised spectra'
+                     % (k, s['ref'], s['alt'], info_text(s), got, want, 'fields with similar keys: %d before, %d after it' % (b, a) if has else 'there is none, only %d field(s) with similar keys' % b),
+                     dict(kind=ds['kind'], dataset=ds, at=dict(stage=stage, key=k)))
+            break
+    chk.stat('info:similar-key-before-aa', int(nbefore)); chk.stat('info:similar-key-after-aa', int(nafter))
+    if have_driver(ctx) and ds['sites']:
+        w = ';'.join(','.join([hexs(s['filt']), hexs(s['ref']), hexs(s['alt']), hexs(info_text(s))]) for s in ds['sites'])
+        out = ask(ctx, 'vcflines %d %s' % (filt, w))
+        impl = {k: (v['segregating'][0], v['segregating'][1], v.get('outgroup_allele')) for k, v in dd.items()}
+        if out.startswith('ok '):
+            res = out[3:].split(' ')
+            model = {}
+            for s, r in zip(ds['sites'], res):
+                if r != 's': model['%s_%d' % (s['chrom'], s['pos'])] = tuple(bytes.fromhex(x).decode('utf-8') if x != '-' else '' for x in r.split(':'))
+            if len(res) == len(ds['sites']) and model == impl: chk.k_ok('vcflines')
+            else:
+                diff = [k for k in list(model) + list(impl) if model.get(k) != impl.get(k)][:3]
+                kbad(chk, 'vcflines', ds, {k: impl.get(k) for k in diff}, {k: model.get(k) for k in diff}, None, dict(stage=stage))
+        else:
+            kbad(chk, 'vcflines', ds, 'entries', out[:300], None, dict(stage=stage))
+
 def check_vcf_dataset(chk, ctx, ds):
     dadi = ctx['dadi']; M = dadi.Misc
     codes = Codes()
@@ -1240,6 +1372,7 @@ def check_vcf_dataset(chk, ctx, ds):
             else:
                 kbad(chk, 'dd_vcf', ds, ie, out, None, dict(stage='parse'))
         check_lines(chk, ctx, ds, dd, filt, codes)
+        check_aa_lines(chk, ctx, ds, dd, filt, 'parse')
         if present != pops:
             return
         entries_oracle = [od[k] for k in dd.keys() if k in od] if sorted(dd.keys()) == sorted(od.keys()) else list(od.values())
@@ -1593,13 +1726,14 @@ def check_full_dataset(chk, ctx, ds):
         except Exception as e:
             chk.fail('make_data_dict_vcf:raises:%s' % type(e).__name__, 'make_data_dict_vcf raises %r' % (e,), inp); return
         pops = ds['pops']
+        check_aa_lines(chk, ctx, ds, dd, True, 'full')
         # columns: derived = allele different from AA; a repeated CHROM_POS keeps the last line
         last = {}
         for s in ds['sites']:
             last['%s_%d' % (s['chrom'], s['pos'])] = s
         mcols = []
         for s in last.values():
-            der = 1 if s['aa'].upper() == s['ref'].upper() else 0
+            der = 1 if aa_value(s) == s['ref'].upper() else 0
             cols = []
             for p in pops:
                 col = []
